@@ -64,6 +64,13 @@ def main():
         w("classes, other entry points of the public API, other hosts). Read the property statement again clause by clause and look for a clause,")
         w("a quantifier dimension (version, host, input class, entry point, call order) or a code path that none of the earlier defects touches.")
         w("")
+    if rnd >= 4:
+        w("This is a late round: the obvious sites have been used. Good places to look now: helper modules outside the anchored files that the")
+        w("anchored code calls (xdis/util.py, xdis/version_info.py, xdis/opcodes/base.py and format/*.py, xdis/codetype/*.py, xdis/magics.py,")
+        w("xdis/op_imports.py, xdis/lineoffsets.py, xdis/namedtuple24.py ...), behaviour that depends on the HOST interpreter version (3.8 vs 3.13),")
+        w("state kept between calls, rarely used but public entry points and keyword arguments, and inputs at representation boundaries")
+        w("(empty tables, exactly-at-limit sizes, negative values, non-ASCII names).")
+        w("")
     w("Task: produce TWO independent, realistic changes to the library source (files under %s/xdis/ only) each of which makes the library VIOLATE" % wt)
     w("this property, while")
     w("  (a) the package still imports on Python 3.8-3.13, and")
